@@ -131,6 +131,28 @@ def scenarios(tier):
                     origins=og, dns=d, net=net, kinds='AF' if tier == 'quick' else 'AFO', horizon=600,
                     features={'mode': mode, 'role': role, 'adversary': name, 'canary_offset': str(off),
                               '_fault_clients': {'c0'}, '_fault_addrs': ADV_ADDRS}))
+    return out + tls_front_scenarios(tier)
+
+
+def tls_front_scenarios(tier):
+    """The proxy's own TLS front (--key-file/--cert-file): a client that botches the handshake makes
+    work initialisation fail.  Handshakes are blocking calls, so no TLS canary can be scripted here;
+    the oracle is the liveness of the executor loop while several such clients come and go."""
+    from .. import pki
+    key, cert = pki.ensure_front()
+    out = []
+    bad = [('plaintext-http', b'GET / HTTP/1.1\r\nHost: x\r\n\r\n', False),
+           ('tls-looking-garbage', b'\x16\x03\x01\x00\x05hello', True),
+           ('one-byte-then-eof', b'\x16', True),
+           ('eof-at-once', b'', True)]
+    for mode in ('local', 'remote'):
+        for name, data, pre in bad:
+            clients = [dict(script=[('wait_idle',), ('close',)], send_on_connect=data, preclose=pre, start_turn=t)
+                       for t in (0, 0, 'idle')]
+            out.append(Scenario('%s/tlsfront-%s' % (mode, name), ['--threadless', '--key-file', key, '--cert-file', cert],
+                                mode=mode, clients=clients, kinds='', horizon=300,
+                                features={'mode': mode, 'role': 'tls_front', 'adversary': name, 'canary_offset': 'none',
+                                          '_no_canary': True}))
     return out
 
 
@@ -165,6 +187,10 @@ def check(w):
     out = []
     if w.died or w.run_exc:
         out.append({'symptom': 'executor_died', 'features': {}, 'detail': w.run_exc})
+        return out
+    if w.scn.features.get('_no_canary'):
+        if any(not c.connected for c in w.clients):
+            out.append({'symptom': 'later_connection_never_accepted', 'features': {}, 'detail': None})
         return out
     ref = reference(w.scn.mode)
     for idx, label in ((1, 'canary'), (2, 'subsequent')):
